@@ -14,10 +14,15 @@ Fixpoint raw_strs (s : sim) (l : list (nat * list N)) : sim :=
   | (st, p) :: r => match raw s (from p) st with Ok s' => raw_strs s' r | Panic _ => raw_strs s r end
   end.
 
-Lemma run_from_state ops : forall s, fst (run_from s ops) = raw_strs s (node_ins ops).
+(* scripts that use plain sim.node(path, module) only; NDL described blocks: Tree/NdlBlock.v *)
+Definition no_ndl (ops : list op) : Prop :=
+  Forall (fun o => match o with NdlBlock _ _ _ => False | _ => True end) ops.
+
+Lemma run_from_state ops : no_ndl ops -> forall s, fst (run_from s ops) = raw_strs s (node_ins ops).
 Proof.
-  induction ops as [|o ops IH]; intros s; [reflexivity|]. cbn [run_from node_ins flat_map].
-  destruct o as [st p|p|p nm|str|str nm]; cbn [step app].
+  induction ops as [|o ops IH]; intros Hn s; [reflexivity|]. cbn [run_from node_ins flat_map].
+  inversion Hn as [|? ? Ho Hn']; subst. specialize (IH Hn').
+  destruct o as [st p|p|p nm|str|str nm|p lv sts]; cbn [step app]; [| | | | |contradiction].
   - cbn [raw_strs]. destruct (raw s (from p) st) as [s'|k].
     + specialize (IH s'). destruct (run_from s' ops) as [s'' xs]. exact IH.
     + specialize (IH s). destruct (run_from s ops) as [s'' xs]. exact IH.
@@ -39,7 +44,7 @@ Proof.
 Qed.
 
 (* the state after a script whose node insertions are the dotted strings of l *)
-Theorem build_is_built : forall ops l, node_ins ops = strs l -> build ops = built l.
+Theorem build_is_built : forall ops l, no_ndl ops -> node_ins ops = strs l -> build ops = built l.
 Proof.
-  intros ops l H. unfold build, built. rewrite run_from_state, raw_all_strs, H. reflexivity.
+  intros ops l Hn H. unfold build, built. rewrite run_from_state by assumption. rewrite raw_all_strs, H. reflexivity.
 Qed.
